@@ -142,6 +142,15 @@ int main(int argc, char ** argv) {
             free(data);
         }
     }
+    /* ---- the empty array / block handed over as (NULL, 0) ---- */
+    for (t = 0; t <= 10; t++) for (f = 1; f <= 2; f++) {
+        if (!MC_CASE()) continue;
+        mc_case_tag = "null-empty"; mc_case_i[0] = t; mc_case_i[1] = f;
+        EN = 0; e_header(0); e_put(",7\r\n", 4);
+        if (t < 10) { job = J_ARRAY; j_type = t; j_format = f; j_count = 0; j_data = NULL; snprintf(descr, sizeof descr, "SCPI_ResultArray(NULL, 0) of %s, format %s, then SCPI_ResultInt32(7)", tname[t], f == 1 ? "NORMAL" : "SWAPPED"); }
+        else { job = J_BLOCK; j_len = 0; j_data = NULL; snprintf(descr, sizeof descr, "SCPI_ResultArbitraryBlock(NULL, 0), then SCPI_ResultInt32(7)"); }
+        run_and_compare(t < 10 ? "array" : "block", descr, 0);
+    }
     /* ---- arbitrary blocks ---- */
     for (p = 0; p < 3; p++) for (n = 0; n <= 1103; n++) {
         size_t len = n <= 1100 ? n : (n == 1101 ? 65535 : n == 1102 ? 65536 : 70000);
